@@ -1,6 +1,7 @@
 package engine
 
 import (
+	"bytes"
 	"context"
 	"errors"
 	"fmt"
@@ -234,13 +235,17 @@ func (e *ExecutionEngine) Execute(ctx context.Context, operation *graphql.Reques
 	// Validate user-supplied and extracted variables against the (remapped) operation.
 	// ValidateWithRemap translates renamed names back to originals for both JSON lookup
 	// and error messages, so users still see their declared variable names in errors.
-	if len(operation.Variables) > 0 && operation.Variables[0] == '{' {
-		validator := variablesvalidation.NewVariablesValidator(variablesvalidation.VariablesValidatorOptions{
-			ApolloCompatibilityFlags: e.apolloCompatibilityFlags,
-		})
-		if err := validator.ValidateWithRemap(operation.Document(), e.config.schema.Document(), operation.Variables, remapVariables); err != nil {
-			return err
-		}
+	// A request without variables (no member, or null) has the empty variables object: declared
+	// variables still have to be checked (a required one without default is missing).
+	variablesToValidate := []byte(operation.Variables)
+	if trimmed := bytes.TrimSpace(variablesToValidate); len(trimmed) == 0 || bytes.Equal(trimmed, []byte("null")) {
+		variablesToValidate = []byte("{}")
+	}
+	validator := variablesvalidation.NewVariablesValidator(variablesvalidation.VariablesValidatorOptions{
+		ApolloCompatibilityFlags: e.apolloCompatibilityFlags,
+	})
+	if err := validator.ValidateWithRemap(operation.Document(), e.config.schema.Document(), variablesToValidate, remapVariables); err != nil {
+		return err
 	}
 
 	execContext := newInternalExecutionContext(e.postProcessorOptions...)
